@@ -342,6 +342,10 @@ func selftest() int {
 			bad++
 		}
 	}
+	if b, err := rc.ParseFEN(lcSingleMoveRoot); err != nil || b.Validate() != nil || len(b.Legal()) != 1 {
+		fmt.Fprintln(realStdout, "selftest: lcSingleMoveRoot must have exactly one legal move")
+		bad++
+	}
 	for _, pe := range perftExtra {
 		b, err := rc.ParseFEN(pe.fen)
 		if err != nil || b.Validate() != nil || !epConsistent(b) || !castleConsistent(b) {
